@@ -24,8 +24,10 @@ package main
 //             panicking host function, modulo zero, index out of range, member of nil, a failing call
 //             of every call path (also a function whose BODY throws), a nested op-assignment whose
 //             right side fails, a failing conversion for a typed parameter;
-//   SWALLOWER ((FAULT) ?? V), a script function that catches (sw(func() { return FAULT }, V)), and
-//             a try/catch statement before the form (the hole is then a variable).
+//   SWALLOWER ((FAULT) ?? V), a script function that catches (sw(func() { return FAULT }, V)),
+//             a try/catch statement before the form (the hole is then a variable), and the form run
+//             three times in a loop with the fault arriving in the first round only (the same nodes
+//             are evaluated again after they failed once).
 // The sibling program has (V) in place of the swallowed fault. Oracle: the program and its sibling
 // record the same probe trace, end with the same value and error status, and read back the same
 // variables. No expected value is stored anywhere; V is of the type the form needs.
@@ -37,6 +39,7 @@ package main
 
 import (
 	"fmt"
+	"os"
 	"strconv"
 	"strings"
 
@@ -95,11 +98,11 @@ var swForms = []swForm{
 	{"call-host", "i", []string{"C07", "C11"}, "r = pv(p(1), %s) + p(2)"},
 	{"return-list", "i", []string{"C07", "C08"}, "g = func() { return p(1), %s, p(2) }; r = g()"},
 	{"multi-assign", "i", []string{"C07", "C04"}, "x, y, z = p(1), %s, p(2); r = [x, y, z]"},
-	{"elem-opassign", "i", []string{"C10", "C07"}, "a = [10, 20, 30]; a[0] += %s; a[p(1)] -= %s; r = a"},
-	{"map-opassign", "i", []string{"C10", "C07"}, "m = {\"x\": 1, \"y\": 2}; m[\"x\"] += %s; m[p(\"y\")] *= %s; r = [m.x, m.y, len(m)]"},
-	{"var-opassign", "i", []string{"C05", "C07"}, "v = 10; v += %s; v *= 2; v -= %s; r = v"},
-	{"elem-store", "i", []string{"C10", "C07"}, "a = [1, 2, 3]; a[p(0)] = %s; a[%s - 4] = p(9); r = a"},
-	{"index-operand", "i", []string{"C10", "C07"}, "a = [0, 1, 2, 3, 4, 5, 6]; r = [a[%s], a[p(1):%s], a[%s - 3:p(6)]]"},
+	{"elem-opassign", "i", []string{"C10", "C07", "C20"}, "a = [10, 20, 30]; a[0] += %s; a[p(1)] -= %s; r = a"},
+	{"map-opassign", "i", []string{"C10", "C07", "C20"}, "m = {\"x\": 1, \"y\": 2}; m[\"x\"] += %s; m[p(\"y\")] *= %s; r = [m.x, m.y, len(m)]"},
+	{"var-opassign", "i", []string{"C05", "C07", "C20"}, "v = 10; v += %s; v *= 2; v -= %s; r = v"},
+	{"elem-store", "i", []string{"C10", "C07", "C20"}, "a = [1, 2, 3]; a[p(0)] = %s; a[%s - 4] = p(9); r = a"},
+	{"index-operand", "i", []string{"C10", "C07", "C20"}, "a = [0, 1, 2, 3, 4, 5, 6]; r = [a[%s], a[p(1):%s], a[%s - 3:p(6)]]"},
 	{"ternary", "b", []string{"C07", "C08"}, "r = [%s ? p(1) : p(2), p(yes) ? %s : p(3), p(no) ? p(4) : %s]"},
 	{"if-condition", "b", []string{"C08"}, "r = 0; if %s { r = p(1) } else { r = p(2) }; if p(no) { r += 10 } else if %s { r += p(20) }"},
 	{"loop-bound", "i", []string{"C08"}, "r = 0; for i = 0; i < %s; i++ { r += p(i) }; for i in range(%s) { if i == 2 { continue }; r += i }"},
@@ -184,6 +187,11 @@ func swBuild() []swCase {
 			// swallower 2: a script function that catches
 			out = append(out, swCase{f.name + "/" + ft.name + "/catching-function", f.props,
 				swPrelude + fill(f.src, "sw(func() { return "+ft.expr+" }, "+ft.v+")") + swAfter, sib})
+			// swallower 4: the form runs three times in a loop and the fault arrives in the first round only:
+			// the same nodes are evaluated again after they failed once
+			out = append(out, swCase{f.name + "/" + ft.name + "/loop-first-round", f.props,
+				swPrelude + "r = 0\nrs9 = []\nfor it9 = 0; it9 < 3; it9++ {\n" + fill(f.src, "((it9 == 0 ? ("+ft.expr+") : "+ft.v+") ?? "+ft.v+")") + "\nrs9 += [r]\n}\n" + swAfter + "rs9\n",
+				swPrelude + "r = 0\nrs9 = []\nfor it9 = 0; it9 < 3; it9++ {\n" + fill(f.src, "("+ft.v+")") + "\nrs9 += [r]\n}\n" + swAfter + "rs9\n"})
 			// swallower 3: a try statement before the form; the hole reads the variable
 			out = append(out, swCase{f.name + "/" + ft.name + "/try-before", f.props,
 				swPrelude + "hv9 = 0\ntry { hv9 = " + ft.expr + " } catch e9 { hv9 = " + ft.v + " }\n" + fill(f.src, "hv9") + swAfter,
@@ -301,6 +309,9 @@ func swRun(c *wk.Case) {
 	// the sibling has no fault at all: if it does not end normally the form is outside the domain
 	if b.ErrText != "" || b.Panicked {
 		c.Excluded("sibling-fails")
+		if os.Getenv("VERIF_SW_DEBUG") != "" {
+			fmt.Fprintf(os.Stderr, "SIBLING-FAILS %s: %s\n", g.name, b.ErrText)
+		}
 		c.Eval("swallowed|"+g.name, false)
 		return
 	}
